@@ -11,7 +11,7 @@ RULE = ("rasters up to 12x12 over value classes {small ints with ties, dyadic, u
         "1..8 (below first, equal to each bound, between, above last), strictly ascending and with repeated bounds; NumPy backend "
         "for all five classifiers, Dask for binary/reclassify/equal_interval/quantile; non-trivial = distinct (function, k/bins, "
         "data hash) with >= 2 distinct output classes")
-BUDGET = {'quick': 100, 'thorough': 900}
+BUDGET = {'quick': 200, 'thorough': 900}
 FLOORS = {'quick': {'binary.membership': 120, 'reclassify.first_bin_rule': 168, 'equal_interval.index': 175, 'quantile.bands': 174,
                     'natural_breaks.optimal': 51, 'order_preserving': 553, 'finite_cells_classified': 553, 'range_0_k-1': 553,
                     'dask.equal_interval': 30, 'dask.quantile.range_order': 30, 'max_cell_classified': 553},
